@@ -33,6 +33,16 @@ CLAIMED = {
          "BIN/CAS/DSK outputs of assembler.py for generated programs are compared with the image, origin and name obtained from Program.process; file_util --list is a third witness.", "6 C11"),
  "C16": ("runtime monitoring: conservation check of file sets across file_util conversions and conversion chains, reference parsers as oracle",
          "Source images from reference writers are converted through the real CLI; the produced image must list exactly the selected files unchanged; chains must return the original set.", "6 C16"),
+ "C04": ("runtime monitoring: reference expression evaluator (generator AST) vs value decoded from the emitted bytes, across operand positions, operators and symbol kinds",
+         "Every operand position x operator x term kind (literal, EQU before/after in every spelling, label before/after) is assembled and the decoded value compared with Python-integer arithmetic on the generator's AST.", "6 C04"),
+ "C05": ("runtime monitoring: emitted bytes of data directives observed at the translate hook vs the literal meaning computed by the generator",
+         "FCB/FDB lists, FCC strings with every delimiter and hostile content, RMB sizes and non-emitting directives are assembled and compared byte for byte.", "6 C05"),
+ "C17": ("runtime monitoring: output fingerprints compared across warm / repeated / fresh-process / varied-hash-seed executions + deep module-state fingerprint (M10) around every assembly",
+         "Each text is assembled seven times under different histories, orders, processes and hash seeds; module-level state and shared default objects are fingerprinted before/after each assembly.", "6 C17"),
+ "C18": ("runtime monitoring: metamorphic relation oracles (origin shift, label bijection, whitespace, comments, mnemonic case, suffix) over generated programs, decoder-assisted for absolute references",
+         "Pairs (P, T(P)) assembled by the real code must satisfy the relation the property states for T.", "6 C18"),
+ "C19": ("runtime monitoring: split-file vs spliced-text equivalence on real temp directories (API and CLI), plus diagnostics for missing / cyclic includes under a step budget",
+         "Programs cut at statement boundaries into 1-3 included files nested to depth 3 must assemble to the image, addresses and symbols of the spliced text.", "6 C19"),
 }
 LEVEL_NOTE = ("Trusted base: the harness's reference models under vlib/ref (self-tested), CPython's sys.addaudithook / sys.monitoring, and the "
               "generators' reach (form catalogue, boundary sets, seeds). Holds only for the executions actually produced; see DESIGN.md sections 1 and 11.")
